@@ -59,20 +59,24 @@ def dec(t):
     return n
 
 
+UNIT = 8        # scenario numbers are multiples of 1/UNIT s; a `unit <n>` line makes that 2**-n s
+
+
 def to_py(n):
-    """the Python number for a scenario number: the same value k/8 in the requested type (exact)"""
+    """the Python number for a scenario number: the same value k/UNIT in the requested type (exact)"""
     kind = getattr(n, 'tok', '')[:1]
     k = int(n)
     if kind == 'F':
         import fractions
-        return fractions.Fraction(k, 8)
+        return fractions.Fraction(k, UNIT)
     if kind == 'I':
-        assert k % 8 == 0, n
-        return k // 8
+        assert k % UNIT == 0, n
+        return k // UNIT
     if kind == 'B':
-        assert k in (0, 8), n
-        return k == 8
-    return k / 8.0
+        assert k in (0, UNIT), n
+        return k == UNIT
+    assert abs(k) < 2 ** 53
+    return k / float(UNIT)
 
 
 def enc(v):
@@ -107,7 +111,7 @@ def parse_step(toks):
 def parse(lines):
     scripts, ops = [], []
     for ln in lines:
-        if ln.split() == ['world']:
+        if ln.split() == ['world'] or ln.split()[:1] == ['unit']:
             continue
         t = ln.split()
         if not t:
@@ -240,7 +244,14 @@ class Run:
                 self.promises.setdefault(h, []).append(self.decorated_start(h, a == 'dstart'))
                 return 'ok'
             if a == 'kill':
-                self.proc.kill(self.obj(h))
+                # every other kill of a generator that has a promise of the current processor goes through
+                # that promise (documented as the same call; the model knows one kind of kill)
+                ps = [p for p in self.promises.get(h, []) if p.processor is self.proc]
+                self.kills = getattr(self, 'kills', 0) + 1
+                if ps and self.kills % 2 == 0:
+                    ps[-1].kill()
+                else:
+                    self.proc.kill(self.obj(h))
                 return 'ok'
             if a == 'state':
                 return LETTER[self.proc.state(self.obj(h))]
@@ -341,6 +352,10 @@ def mark(k, lines):
 def run_impl(lines):
     # objects that exist already are of no interest to the final gc.collect(): keep them out of it
     # (otherwise its cost grows with everything the check has accumulated so far)
+    global UNIT
+    units = [int(ln.split()[1]) for ln in lines if ln.split()[:1] == ['unit']]
+    lines = [ln for ln in lines if ln.split()[:1] != ['unit']]
+    UNIT = 2 ** units[0] if units else 8
     gc.freeze()
     try:
         marked = split_instances(lines)
@@ -357,4 +372,5 @@ def run_impl(lines):
             hints += mark(k, h)
         return obs, hints
     finally:
+        UNIT = 8
         gc.unfreeze()
